@@ -1,32 +1,88 @@
-//! C19.8 — Mapping::map clamps its input; C17 — mapping laws.
+//! C19.8 / C17.4 — Mapping::map clamps its input; Value::raw_value.
+// @deps info
 use super::*;
 use crate::kani_support::*;
+use crate::info::kani_proofs::mock_info;
 
-// @ob id=C19.8,C17.4 strength=axioms axioms=POW tier=quick fn=value.rs::Mapping::map
-// @req input range (lo,hi) with lo != hi (normal or inverted), |lo|,|hi| <= 1e6, |hi-lo| >= 1e-6; output range (a,b) finite |.|<=1e6; every built-in easing; input x any non-NaN f64
-// @ens map(x) == map(clamp(x, min(lo,hi), max(lo,hi))); x at or beyond lo gives exactly a, at or beyond hi gives exactly b; result within [min(a,b), max(a,b)]
+// @ob id=C19.8a,C17.4a strength=complete tier=quick fn=value.rs::Mapping::map
+// @req input range (lo,hi), lo != hi, normal or inverted, |lo|,|hi| <= 1e6; any output range; any easing; input x any non-NaN f64; Easing::apply and f64::interpolate replaced by recording contract stubs (their contracts: C19.7, C06.5)
+// @ens exactly one easing evaluation, at an amount in [0,1]; the amount is exactly 0 for inputs at or beyond the range start (also for inverted ranges); the end side is C19.8b; the result is interpolate(out_lo, out_hi, ease(amount))
 #[kani::proof]
 #[kani::unwind(8)]
-#[kani::stub(f64::powf, powf64_model)]
-#[kani::stub(f64::powi, powi64_model)]
-fn c19_8_mapping_clamps() {
+#[kani::stub(crate::tween::Easing::apply, easing_apply_rec)]
+#[kani::stub(<f64 as Tweenable>::interpolate, interpolate_f64_rec)]
+fn c19_8a_mapping_clamps_input() {
     let lo = any_f64_in(-1.0e6, 1.0e6);
     let hi = any_f64_in(-1.0e6, 1.0e6);
-    kani::assume((hi - lo).abs() >= 1.0e-6);
-    let a = any_f64_in(-1.0e6, 1.0e6);
-    let b = any_f64_in(-1.0e6, 1.0e6);
+    kani::assume(lo != hi);
+    let a: f64 = kani::any();
+    let b: f64 = kani::any();
     let m = Mapping { input_range: (lo, hi), output_range: (a, b), easing: any_easing() };
     let x: f64 = kani::any();
     kani::assume(!x.is_nan());
     let y = m.map(x);
-    let (mn, mx) = if lo < hi { (lo, hi) } else { (hi, lo) };
-    let xc = x.clamp(mn, mx);
-    let yc = m.map(xc);
-    assert!(y.to_bits() == yc.to_bits() || (y == yc), "C19.8: a mapping clamps its input to the input range");
-    if (lo < hi && x <= lo) || (lo > hi && x >= lo) { assert!(y == a, "C19.8: at or beyond the range start the output is the first output bound"); }
-    if (lo < hi && x >= hi) || (lo > hi && x <= hi) { assert!(y == b, "C19.8: at or beyond the range end the output is the second output bound"); }
-    let (omn, omx) = if a < b { (a, b) } else { (b, a) };
-    assert!(y >= omn - 1.0e-9 * (1.0 + omx.abs() + omn.abs()) && y <= omx + 1.0e-9 * (1.0 + omx.abs() + omn.abs()), "C19.8: output within the output range");
+    unsafe {
+        assert!(EA_N == 1, "C19.8a: the easing is evaluated once");
+        let amount = EA_X[0];
+        assert!(amount >= 0.0 && amount <= 1.0, "C19.8a: the eased amount is clamped to [0,1]");
+        if (lo < hi && x <= lo) || (lo > hi && x >= lo) { assert!(amount == 0.0, "C19.8a: at or beyond the range start the amount is exactly 0"); }
+        assert!(IP_N == 1 && IP_A[0].to_bits() == a.to_bits() && IP_B[0].to_bits() == b.to_bits() && IP_T[0].to_bits() == EA_RET[0].to_bits(), "C19.8a: output = interpolate(out_lo, out_hi, ease(amount))");
+        assert!(y.to_bits() == IP_RET[0].to_bits(), "C19.8a: and that is what map returns");
+    }
     kani::cover!(lo > hi && x > lo);
     kani::cover!(lo < hi && x > lo && x < hi);
+    kani::cover!(lo < hi && x > hi);
+}
+
+// @ob id=C19.8b,C17.4b strength=bounded tier=quick bound="lo, hi, x restricted to 6 significant mantissa bits, |.| <= 1e6" fn=value.rs::Mapping::map
+// @req as C19.8a with reduced-precision range bounds and input
+// @ens inputs at or beyond the range end give an amount of exactly 1 (normal and inverted ranges); inputs strictly inside give an amount strictly between... at least within [0,1]
+#[kani::proof]
+#[kani::unwind(8)]
+#[kani::stub(crate::tween::Easing::apply, easing_apply_rec)]
+#[kani::stub(<f64 as Tweenable>::interpolate, interpolate_f64_rec)]
+fn c19_8b_mapping_clamps_end() {
+    let m6 = (1u64 << 46) - 1;
+    let lo = any_f64_in(-1.0e6, 1.0e6);
+    let hi = any_f64_in(-1.0e6, 1.0e6);
+    let x = any_f64_in(-1.0e7, 1.0e7);
+    kani::assume(lo != hi && lo.to_bits() & m6 == 0 && hi.to_bits() & m6 == 0 && x.to_bits() & m6 == 0);
+    let m = Mapping { input_range: (lo, hi), output_range: (0.0f64, 1.0f64), easing: Easing::Linear };
+    let _ = m.map(x);
+    unsafe {
+        assert!(EA_N == 1, "C19.8b: one easing evaluation");
+        if (lo < hi && x >= hi) || (lo > hi && x <= hi) { assert!(EA_X[0] == 1.0, "C19.8b: at or beyond the range end the amount is exactly 1"); }
+        if (lo < hi && x <= lo) || (lo > hi && x >= lo) { assert!(EA_X[0] == 0.0, "C19.8b: at or beyond the range start the amount is exactly 0"); }
+    }
+    kani::cover!(lo > hi && x < hi);
+    kani::cover!(lo < hi && x > hi);
+}
+
+// @ob id=C17.5b strength=complete tier=quick fn=value.rs::Value::raw_value
+// @req a Fixed value; or a value linked to a modulator whose id resolves (any modulator value) / does not resolve; Mapping::map's callees stubbed as above
+// @ens Fixed(v) => Some(v) exactly; linked and resolving => Some(map(modulator value)) computed in this very call; linked and not resolving => None (the caller then holds its last value)
+#[kani::proof]
+#[kani::unwind(8)]
+#[kani::stub(crate::tween::Easing::apply, easing_apply_rec)]
+#[kani::stub(<f64 as Tweenable>::interpolate, interpolate_f64_rec)]
+fn c17_5b_value_raw_value() {
+    let mv: f64 = kani::any();
+    kani::assume(!mv.is_nan());
+    let (info, _, mid) = mock_info(None, Some(mv));
+    let id = mid.unwrap();
+    let v: f64 = kani::any();
+    let fixed = Value::Fixed(v).raw_value(&info);
+    assert!(fixed.is_some() && fixed.unwrap().to_bits() == v.to_bits(), "C17.5b: a fixed value is itself");
+    let m = Mapping { input_range: (0.0, 1.0), output_range: (kani::any::<f64>(), kani::any::<f64>()), easing: Easing::Linear };
+    let live: bool = kani::any();
+    let use_id = if live { id } else { let o = crate::modulator::ModulatorId(any_small_key(2)); kani::assume(o != id); o };
+    let r = Value::FromModulator { id: use_id, mapping: m }.raw_value(&info);
+    if live {
+        unsafe { assert!(r.is_some() && IP_N == 1 && r.unwrap().to_bits() == IP_RET[0].to_bits(), "C17.5b: a linked value is the mapping of the modulator's current value"); }
+    } else {
+        assert!(r.is_none(), "C17.5b: a removed modulator yields None (hold the last value)");
+    }
+    kani::cover!(live);
+    kani::cover!(!live);
+    core::mem::forget(info);
 }
